@@ -163,6 +163,12 @@ def run(ck):
         ck.validated += 1
     qs = A.decide(cap=300 if ck.tier == 'quick' else 3000)
     A.settle(qs)
+    # "later calendar date" as the crate itself orders UtcDateTime values: derive(Ord) must be the lexicographic order of
+    # (year, month, day, hour, minute, second, nanoseconds) - the order for which strict monotonicity of unix_time is claimed above
+    import kprop
+    from engb import H
+    ck.trusted.append('Kani 0.68 / CBMC 6.11 for the derive(Ord) harness')
+    kprop.run_harnesses(ck, [H('c02_derive_ord_is_lexicographic', cap=600, playback=True, meaning='derive(Ord/Eq) of UtcDateTime is the lexicographic order on (year, month, month_day, hour, minute, second, nanoseconds) for two arbitrary values')])
     ck.explanation = ('days_since_unix_epoch is pinned to the true day count by solver-checked recurrences valid for every i32 year (epoch, year step, month step, day step, leap rule) and a '
                       'meta-level induction over the year; unix_time is its linear extension; calendar->unix->calendar identity follows from C01.inverse_of_timegm + strict monotonicity (injectivity) + totality, '
                       'and is additionally attempted as one direct query (optional: it times out in quick); acceptance, error kinds, strict monotonicity (hence injectivity) are claims over two fully symbolic tuples.')
@@ -171,6 +177,9 @@ def run(ck):
 def replay(ck, case):
     nat = common.Native()
     c = case['case']
+    if c.get('kind') == 'kani-playback':
+        import kprop
+        return kprop.replay_playback(ck, case)
     out = nat.both([c['cmd']] + ([c['cmd2']] if 'cmd2' in c else []))
     print('native (dev, release):', out)
     k = c.get('kind')
